@@ -259,7 +259,14 @@ class NDNApp:
                 nack_reason = None
             pit_token = lp_pkt.pit_token
             data = lp_pkt.fragment
-            typ, _ = enc.parse_tl_num(data)
+            if data is None or len(data) == 0:
+                # An LpPacket without a payload (IDLE packet): nothing to process
+                return
+            try:
+                typ, _ = enc.parse_tl_num(data)
+            except (IndexError, struct.error):
+                self.logger.warning('Unable to decode the fragment of LpPacket')
+                return
         else:
             nack_reason = None
             pit_token = None
